@@ -168,3 +168,29 @@ Proof. vm_compute. repeat split. Qed.
 Example C08_ex_subscribe_true :
   subscribe_pres ex_o 1 7 70 = okk ex_o [KMark 70; KNow 7 (Some 70)] /\ cond_true ex_o 1 = true.
 Proof. split; [apply subscribe_true_immediate; [apply wf_ex_state | reflexivity] | reflexivity]. Qed.
+
+(** ** machine level: `await condition` ([Condition.__await__]: `while not self: wait`) leaves its loop only from
+    the loop head, in a state in which the condition evaluates true, in the same activation and without any change
+    of state -- for an arbitrary machine state, activity and continuation (symbolic execution of the transcription) *)
+From Usim Require Import Machine Lib WaitSpecs.
+Theorem C08_wait_loop_exits_only_when_true :
+  forall k a m n st outer,
+    exec (4 + k) a m (MRun (While (fun o => negb (cond_true o n)) (notif_await n))) {| c_aid := a; c_stack := st |} outer
+    = if negb (cond_true (ob m) n)
+      then exec (1 + k) a m (MRun (notif_await n))
+                {| c_aid := a;
+                   c_stack := FBind (fun _ => Ret (VCont VU))
+                              :: FLoop (fun _ => Dyn (fun o _ => if negb (cond_true o n)
+                                                                 then notif_await n ;;; Ret (VCont VU)
+                                                                 else Ret (VBreak VU))) :: st |} outer
+      else exec k a m (MRet VU) {| c_aid := a; c_stack := st |} outer.
+Proof. intros k a m n st outer. exact (while_exit_only_when_false k a m (fun o => negb (cond_true o n)) (notif_await n) st outer). Qed.
+Print Assumptions C08_wait_loop_exits_only_when_true.
+
+(** (A) the tie to /repo's current source: every function this property's models were transcribed from has, in the
+    tree this run is checking, the normalised source it had when the models were validated (hashes regenerated from
+    /repo into gen/Generated.v on every run; pins in gen/SourcePins.v).  A change to one of them invalidates the
+    transcription until it is re-validated. *)
+From UsimGen Require SourcePins Pin_C08.
+Theorem C08_modelled_source_unchanged : forallb SourcePins.pin_ok Pin_C08.pins = true.
+Proof. exact Pin_C08.src_unchanged. Qed.
